@@ -531,6 +531,10 @@ func GenC13(seed uint64, tier string) *Plan {
 		if len(st.Body) > 0 && len(st.Faults) == 0 && st.Malformed == "" {
 			st.Chunked = r.Chance(0.25)
 		}
+		if len(st.Faults) == 0 && (st.Method == "PROPFIND" || st.Method == "REPORT" || st.Method == "GET") && r.Chance(0.06) {
+			// the client hangs up while the answer is being written
+			st.Faults = append(st.Faults, Fault{Seam: "resp-write", At: rt.Pick(r, []int{0, 1, 39, 200, 1000, r.Intn(4000)}), Kind: "broken-pipe"})
+		}
 		pl.Steps = append(pl.Steps, *st)
 	}
 	return pl
